@@ -88,6 +88,17 @@ def dotted : Expr → String
   | .star x => dotted x
   | _ => "?"
 
+/-- split a character list at dots (structural, so that it reduces in the kernel) -/
+def splitDots : List Char → List Char → List (List Char)
+  | [], cur => [cur.reverse]
+  | c :: r, cur => if c == '.' then cur.reverse :: splitDots r [] else splitDots r (c :: cur)
+
+/-- the selector chain named by a dotted path ("v1.cpu") -/
+def pathExpr (p : String) : Expr :=
+  match (splitDots p.toList []).map String.ofList with
+  | [] => .id p
+  | r :: fs => fs.foldl (fun e f => Expr.sel e f) (.id r)
+
 def rootId : Expr → String
   | .id n => n
   | .sel x _ => rootId x
@@ -128,6 +139,9 @@ structure Cfg (W : Type) where
   halted : W → Bool := fun _ => false
   /-- writes through pointers requested by the last external call: (variable, value) pairs -/
   flush : W → List (String × Val) × W := fun w => ([], w)
+  /-- opt-in: `&x.f` is a reference to that field (`*p = v` writes it, `*p` reads it) and a field that was never
+  set reads as nil (Go's zero value of a pointer / slice field).  Off: `&e` is the value of `e`. -/
+  fieldRefs : Bool := false
 
 variable {W : Type}
 
@@ -158,7 +172,11 @@ def evalE (cfg : Cfg W) : Nat → Expr → Env → W → Except String (Val × W
       | none => match cfg.glob n with
         | some v => .ok (v, w)
         | none => .error s!"unbound {n}"
-    | .star x => evalE cfg fuel x env w
+    | .star x => do
+      let (v, w) ← evalE cfg fuel x env w
+      match cfg.fieldRefs, v with
+      | true, .strct [("#ref", .str p)] => evalE cfg fuel (pathExpr p) env w
+      | _, _ => .ok (v, w)
     | .sel x f =>
       -- a selector chain rooted at a bound variable is a field access; otherwise a package-level name
       match env.get? (rootId x) with
@@ -167,7 +185,7 @@ def evalE (cfg : Cfg W) : Nat → Expr → Env → W → Except String (Val × W
         match xv with
         | .strct fs => match recGet fs f with
           | some v => .ok (v, w)
-          | none => .error s!"no field {f}"
+          | none => if cfg.fieldRefs then .ok (.nil, w) else .error s!"no field {f}"
         | _ => .error s!"select {f} of non-record ({dotted e})"
       | none => match cfg.glob (dotted e) with
         | some v => .ok (v, w)
@@ -185,6 +203,10 @@ def evalE (cfg : Cfg W) : Nat → Expr → Env → W → Except String (Val × W
       | none => match cfg.glob n with
         | some v => .ok (v, w)
         | none => .error s!"unbound &{n}"
+    | .un "&" (.sel x f) =>
+      match cfg.fieldRefs, env.get? (rootId x) with
+      | true, some _ => .ok (.strct [("#ref", .str (dotted (.sel x f)))], w)
+      | _, _ => evalE cfg fuel (.sel x f) env w
     | .un "&" a => evalE cfg fuel a env w
     | .un "^" (.call (.id ty) [x]) => do
       -- bitwise complement of an unsigned conversion: the width is the conversion's
@@ -303,7 +325,13 @@ def assignTo (cfg : Cfg W) (fuel : Nat) : Nat → Expr → Val → Env → W →
     | .id n => match env.set n v with
       | some env' => .ok (env', w)
       | none => .error s!"assign to unbound {n}"
-    | .star x => assignTo cfg fuel d x v env w
+    | .star x =>
+      if cfg.fieldRefs then do
+        let (pv, w) ← evalE cfg fuel x env w
+        match pv with
+        | .strct [("#ref", .str p)] => assignTo cfg fuel d (pathExpr p) v env w
+        | _ => assignTo cfg fuel d x v env w
+      else assignTo cfg fuel d x v env w
     | .sel x f => do
       let (xv, w) ← evalE cfg fuel x env w
       match xv with
